@@ -229,11 +229,9 @@ fn determine_target(
 
     let mut host_header: Option<String> = None;
     for header in headers {
-        if let Some(rest) = header.strip_prefix("Host:") {
-            host_header = Some(rest.trim().to_string());
-            break;
-        } else if let Some(rest) = header.strip_prefix("host:") {
-            host_header = Some(rest.trim().to_string());
+        // header names are case-insensitive (same test as in build_forward_request)
+        if header.to_ascii_lowercase().starts_with("host:") {
+            host_header = Some(header[5..].trim().to_string());
             break;
         }
     }
